@@ -317,7 +317,7 @@ def ref_expand(tokens, macros, disabled=frozenset()):
                     raise _MacroError("argument count")
             elif len(args) != nparams:
                 raise _MacroError("argument count")
-            args = [ref_expand(a, macros, frozenset()) for a in args]
+            args = [ref_expand(a, macros, disabled) for a in args]       # a macro that is being expanded stays switched off inside the arguments
         rep = []
         for b in body:
             if isinstance(b, str) and b.startswith("$"):
@@ -349,6 +349,8 @@ EXPAND_MACROS = {
     "fnself": {"F": (1, ["F", "(", "$0", "+", 1, ")"])},
     "handoff": {"F": (None, ["G"]), "G": (1, ["(", "$0", ")"])},
     "nestdef": {"F": (1, ["G", "(", "$0", ",", "$0", ")"]), "G": (2, ["$0", "+", "$1"]), "X": (None, ["Y"]), "Y": (None, [2])},
+    "argself": {"F": (1, ["$0"]), "A": (None, ["F", "(", "A", ")"])},
+    "argcycle": {"F": (1, ["(", "$0", ")"]), "A": (None, ["F", "(", "B", ")"]), "B": (None, ["A", "+", 1])},
 }
 EXPAND_INPUTS = {
     "obj": [["A"], ["B", ";"], ["x", "A", "y"], ["E", "A", "E"], ["AA"], []],
@@ -362,6 +364,8 @@ EXPAND_INPUTS = {
     "fnself": [["F", "(", 1, ")"]],
     "handoff": [["F", "(", 7, ")"], ["F"], ["F", " ", "(", 7, ")"], ["F", ";", "(", 7, ")"]],
     "nestdef": [["F", "(", "X", ")"], ["F", "(", "G", "(", "X", ",", 1, ")", ")"]],
+    "argself": [["A"], ["F", "(", "A", ")"], ["F", "(", "F", "(", 1, ")", ")"]],
+    "argcycle": [["A"], ["B"], ["F", "(", "A", ")"]],
 }
 
 
@@ -374,7 +378,7 @@ def rule_expand_eval(chk):
     am = f.fn("apply_macros", PP)
     if not am:
         return False
-    ip = I.Interp(f, max_depth=16, extern={})
+    ip = I.Interp(f, max_depth=40, extern={})
     ip.max_loop = 512
     n = 0
     for set_name, macros in EXPAND_MACROS.items():
@@ -392,6 +396,11 @@ def rule_expand_eval(chk):
             except I.Unknown as e:
                 if "panicking" in str(e):
                     bad = bad or "expanding `%s` aborts (%s)" % (" ".join(map(str, toks)), str(e)[:60])
+                    continue
+                if isinstance(e, I.DepthExceeded):
+                    # the reference needs at most four nested expansions for these inputs; the reader followed 40 nested calls
+                    bad = bad or "with %s, expanding `%s` keeps re-entering the expander (40 nested calls and counting): the expansion of a self-referential macro does not terminate" % (
+                        ", ".join("#define %s%s %s" % (k, "(%d)" % v[0] if v[0] is not None else "", " ".join(map(str, v[1]))) for k, v in macros.items()), " ".join(map(str, toks)))
                     continue
                 chk.note("C12.expand: apply_macros is not readable (%s); the shape rules C12.args / C12.term decide" % str(e)[:80])
                 return False
